@@ -17,7 +17,7 @@ RULE = ("for model configuration classes (tags per predicate class x rated power
 ASSUMPTIONS = ["equality is NaN-aware; where the bulk read reports None the single read may return None or raise ValueError",
                "ids listed twice in a table (ET meter_e_total_exp/imp: float and 8-byte variants) resolve to the later definition in "
                "both paths"]
-MUST = ["impossible_clock_contents", "ids_compared", "calculated_ids_compared", "bitmap_ids_compared", "four_byte_meter_ids_compared", "none_in_bulk",
+MUST = ["history_slow_first_answer", "impossible_clock_contents", "ids_compared", "calculated_ids_compared", "bitmap_ids_compared", "four_byte_meter_ids_compared", "none_in_bulk",
         "history_battery_appears", "history_block_refused_later", "history_device_info_rerun", "history_block_served_later",
         "history_battery_disappears", "configs_run"]
 EXHAUSTIVE = {"quick": False, "thorough": False}
@@ -150,6 +150,32 @@ def run_cfg(cfg, part, port, seed, history=None):
                     pass
             await compare_all(g, inv, part, fam, tag, case, "block refused later")
             part.count("history_block_refused_later")
+        elif history == "slow_first_answer" and fam in ("ET", "DT") and port == 8899:
+            # an inverter that answers the FIRST transmission of every request 1.2 timeouts late and the retransmission at once; a fresh
+            # object with the library's default connection handling and one retry: every single read is served on its retransmission
+            # while the late answer of the previous read is still on its way
+            inv2 = models.family_cls(g, fam)("inv0", port, 0, 1, 1)
+            await inv2.read_device_info()
+            for _ in range(2):          # let the capability fallbacks of the fresh object settle
+                try:
+                    await inv2.read_runtime_data()
+                except g.exceptions.RequestRejectedException:
+                    pass
+            st_ = {"last": None}
+            orig_on = sim.on_request
+
+            def on_request(s_, kind, frame, n, _o=orig_on):
+                first = bytes(frame) != st_["last"]
+                st_["last"] = bytes(frame)
+                sim.delay = 1.2 if first else 0.0
+                try:
+                    return _o(s_, kind, frame, n)
+                finally:
+                    sim.delay = 0.0
+            sim.on_request = on_request
+            await compare_all(g, inv2, part, fam, tag, case, "first answers late")
+            sim.on_request = orig_on
+            part.count("history_slow_first_answer")
         elif history == "device_info_rerun":
             await inv.read_sensor(inv.sensors()[1].id_)
             if fam == "ET":
@@ -194,8 +220,10 @@ def run_shard(spec):
         if i % spec["shards"] != spec["shard"]:
             continue
         port = 8899 if cfg["family"] == "ES" else (502 if i % 3 == 0 else 8899)
-        hist = [None, "battery_appears", "block_refused_later", "device_info_rerun", "block_served_later", "battery_disappears"][i % 6] \
-            if cfg["family"] != "ES" else None
+        hist = [None, "battery_appears", "block_refused_later", "device_info_rerun", "block_served_later", "battery_disappears",
+                "slow_first_answer"][i % 7] if cfg["family"] != "ES" else None
+        if hist == "slow_first_answer":
+            port = 8899
         run_cfg(cfg, part, port, f"{spec['seed']}:C16:{i}", hist)
     return part
 
